@@ -66,6 +66,29 @@ def check(ctx):
                     'the out-event is delivered while the selection lock is held' if ok else why)
     if n == 0:
         run.error('C11.deliver-under-lock', 'dznpy.adv_shell.core.processing', '-', 'out-event link', 'multi-client out-event link not found')
+    # ---- C11.no-lock-across-dispatch: a client thread never holds the selection lock while it waits for the dispatcher -------------
+    # The in-event links of a client port run on the client's thread and forward through the arbitered port, i.e. they block until
+    # the dispatcher thread has run the event.  The dispatcher thread takes the same lock to deliver out-events (rule above).  A
+    # link that first binds the result of CurrentClient() to a local (the lock is held as long as the local lives) and forwards
+    # afterwards makes the two threads wait for each other.
+    n2 = 0
+    for entry, kind, d, role, ln in links:
+        if kind == 'P-MTS-multiclient' and d == 'IN' and ln.style == 'closure' and entry == 'create_cpp_port_helpers':
+            n2 += 1
+            stmts = split_statements(ln.closure.body)
+            acq = next((i for i, st in enumerate(stmts) if any(tok_text(t) == 'CurrentClient' for t in st)
+                        and any(tok_text(t) == '=' for t in st)), None)
+            fwd = [i for i, st in enumerate(stmts) if any(tok_text(t) == 'Arbitered' for t in st)]
+            released = acq is not None and any(any(tok_text(t) in ('reset', 'release', 'unlock') for t in st) for st in stmts[acq + 1:(fwd[-1] if fwd else acq + 1)])
+            bad = acq is not None and any(i > acq for i in fwd) and not released
+            run.add('C11.no-lock-across-dispatch', 'dznpy.adv_shell.core.processing', 'initialize_port_impl',
+                    f'[{role}] ' + toks_text(ln.closure.body)[:90], not bad,
+                    'the forwarded call (a round trip to the dispatcher thread) is made without the selection lock' if not bad else
+                    'the link binds the result of CurrentClient() to a local and forwards the event through the dispatcher afterwards: the client '
+                    'thread waits for the dispatcher while it holds the selection lock, and the dispatcher thread needs that lock to deliver an '
+                    'out-event - the two threads can wait for each other for ever')
+    if n2 == 0:
+        run.error('C11.no-lock-across-dispatch', 'dznpy.adv_shell.core.processing', '-', 'client in-event links', 'no client in-event link found')
     # two-step remark (reported, not judged)
     run.remark('claim/release links perform the forwarded call and the (de)selection as two separate steps on the client '
                'thread (visible in the template): the window between them is a schedule-level question, not decided here')
